@@ -121,7 +121,7 @@ class ExprBuilder:
         if k == "cast":
             if rv.cast_kind.startswith("PointerCoercion") or rv.cast_kind in ("PtrToPtr", "Subtype", "Transmute") and rv.from_ty == rv.to_ty:
                 return self.operand(rv.ops[0], depth)
-            return ("cast", rv.to_ty, self.operand(rv.ops[0], depth), rv.cast_kind)
+            return ("cast", rv.to_ty, self.operand(rv.ops[0], depth), rv.cast_kind, rv.from_ty)
         if k == "binop":
             op = rv.op
             a = self.operand(rv.ops[0], depth)
@@ -310,6 +310,24 @@ def mentions_local_named(mir, e, name):
 def strip_casts(e):
     while e[0] == "cast":
         e = e[2]
+    return e
+
+
+_ARITH_CALLS = {"saturating_add": "Add", "wrapping_add": "Add", "saturating_sub": "Sub", "wrapping_sub": "Sub",
+                "saturating_mul": "Mul", "wrapping_mul": "Mul"}
+
+
+def arith_norm(e):
+    """x.saturating_add(c) / wrapping_add / ... read as the plain operation: rules that recognise `base - 1` or
+    `max + 1` must not depend on how overflow is treated at the extreme values."""
+    if e[0] == "call" and not e[4] and len(e[2]) == 2:
+        m = e[1].rsplit("::", 1)[-1]
+        if m in _ARITH_CALLS and e[1].split("::")[-2:-1] and e[1].split("::")[-2] in ("i8", "i16", "i32", "i64", "i128", "isize", "u8", "u16", "u32", "u64", "u128", "usize"):
+            return ("bin", _ARITH_CALLS[m], arith_norm(e[2][0]), arith_norm(e[2][1]))
+    if e[0] == "cast":
+        return e[:2] + (arith_norm(e[2]),) + e[3:]
+    if e[0] in ("bin", "ckd"):
+        return (e[0], e[1], arith_norm(e[2]), arith_norm(e[3]))
     return e
 
 
